@@ -103,6 +103,11 @@ func genModuleWorkspace(r *lib.Rng) map[string]string {
 		fields = append(fields, "M")
 		mod = append(mod, "M.M = 7")
 	}
+	nested := r.Chance(1, 2)
+	if nested {
+		// members two and three levels below the module table, reached through the requiring variable
+		mod = append(mod, "M.sub = { kk = 1 }", "M.sub.fn2 = function(a) return a end", "M.top = 3")
+	}
 	if len(funcs) > 0 {
 		mod = append(mod, "function M.last()", "  return M."+funcs[r.Intn(len(funcs))]+"(1)", "end")
 	}
@@ -124,6 +129,9 @@ func genModuleWorkspace(r *lib.Rng) map[string]string {
 				uses = append(uses, fmt.Sprintf("%s.%s", v, f))
 			}
 		}
+		if nested {
+			uses = append(uses, v+".sub.kk", v+".sub.fn2(x)", v+".top", v+".sub.top")
+		}
 		if len(uses) == 0 {
 			uses = append(uses, "x")
 		}
@@ -131,6 +139,18 @@ func genModuleWorkspace(r *lib.Rng) map[string]string {
 		files[fmt.Sprintf("user%d.lua", u+1)] = strings.Join(ls, "\n") + "\n"
 	}
 	return files
+}
+
+// genTwoDefWorkspace: a global table assigned in two files (each with members of its own) and read in a third
+const c12K5 = "a member that is declared nowhere ('m.sub.top' where the table sub has no member top): go-to-definition falls back to the declaration of the longest known prefix (sub) and hover shows 'any' without the name, while find-references of that declaration does not list the position: p is not among the references of its own declaration, and hover does not name the identifier"
+
+func genTwoDefWorkspace(r *lib.Rng) map[string]string {
+	g := []string{"Shared", "Conf", "Reg"}[r.Intn(3)]
+	return map[string]string{
+		"a.lua": fmt.Sprintf("%s = { one = 1 }\nprint(%s.one)\n", g, g),
+		"b.lua": fmt.Sprintf("local pad = 0\n%s = { two = 2 }\nprint(%s, %s.two, pad)\n", g, g, g),
+		"c.lua": fmt.Sprintf("print(%s)\n", g),
+	}
 }
 
 // genMemberWorkspace: one file with nested table members (t.sub.alpha, constructor fields two levels deep)
@@ -322,6 +342,17 @@ func c12Multi(res *lib.Result, dir string, files map[string]string, tag string, 
 				if d.line < len(dl) && strings.HasPrefix(strings.TrimSpace(dl[d.line]), "---@") {
 					res.HitKnown("C12-K3", "find-references / highlight on a member 'v.f' whose definition is an annotation '---@field f': the member is ignored and the occurrences of the base variable v are returned (they resolve to v, not to the field)", caseText+"\n"+strings.Join(problems, "\n"))
 					res.Dist("hit.C12-K3")
+					continue
+				}
+			}
+			// class K5: a member with no declaration anywhere: the definition is the declaration of its longest known
+			// prefix (another identifier than the one under the cursor)
+			if isMember && d.ok {
+				dl := strings.Split(files[d.file], "\n")
+				if d.line < len(dl) && d.col+len(p.name) <= len(dl[d.line]) && dl[d.line][d.col:d.col+len(p.name)] != p.name ||
+					(d.line < len(dl) && d.col+len(p.name) > len(dl[d.line])) {
+					res.HitKnown("C12-K5", c12K5, caseText+"\n"+strings.Join(problems, "\n"))
+					res.Dist("hit.C12-K5")
 					continue
 				}
 			}
